@@ -13,7 +13,11 @@ PROP = {
              "VarUInteger 1..32, Coins/Grams, MsgAddress, tail Cell, ^Cell, Maybe T, Maybe ^T, Either T ^T, Either T U, ^T, "
              "^[ fields ], HashmapE n T / n ^T incl. BitsN keys, nested declared types, untagged / #hex / $bin single "
              "constructors, 2..5-constructor unions with fixed-width, prefix-code, 8-bit and 32-bit tags, abi-style message "
-             "bodies generated alone with typePrefix+skipMagic, every value fitting a cell) plus one fixed schema using every "
+             "bodies generated alone with typePrefix+skipMagic, every value fitting a cell; every form of field definition of "
+             "tlb/parser's grammar: name:T, _:T, unnamed ^T and ^[ ... ] incl. nested with unnamed entries inside, an unnamed "
+             "paren expression, an unnamed declared type, inline name:[ ... ], implicit {n:#} {X:Type} and constraints, the "
+             "explicit empty prefixes #_ / $_, the builtin #, True, MsgAddressInt, CurrencyCollection — at random and once per "
+             "run in a fixed schema `tlbforms`) plus one fixed schema using every "
              "type the builtin generators write into tlb/integers.go. For each schema: the real generator (tl/parser, "
              "tlb/parser linked as libraries) is run three times and the outputs compared; the output is compiled in a scratch "
              "Go module (one package per schema, one `go build ./...`, errors attributed per package); its structure is "
